@@ -113,6 +113,11 @@ impl AEADBodyCodec {
     }
 
     pub fn encode_packet(&mut self, mut src: BytesMut, dst: &mut BytesMut, session: &mut dyn Session) -> Result<(), aead::Error> {
+        // a datagram travels in exactly one chunk: refuse what cannot fit whatever the padding turns out to be
+        let max_padding = if self.padding == PaddingLengthGenerator::Shake { 63 } else { 0 };
+        if src.remaining() > self.payload_limit - self.auth.cipher.tag_size() - self.chunk.size_bytes() - max_padding {
+            return Err(aead::Error);
+        }
         self.encode_chunk(&mut src, dst, session)
     }
 
